@@ -135,6 +135,11 @@ def build(cfg, mon):
     return d
 
 
+def id_of(i):
+    """the id of element i: falsy, numeric and string ids at the first positions"""
+    return [0, '', 'id2', 3, '4', -5][i] if i < 6 else 'id%d' % i
+
+
 def expected(cfg):
     out = []
     runs = []
@@ -143,7 +148,7 @@ def expected(cfg):
             runs.append(i)
         if not is_call:
             continue
-        id = 'id%d' % i
+        id = id_of(i)
         if kind == 'unknown':
             out.append(dict(id=id, code=-32601))
         else:
@@ -164,7 +169,7 @@ def execute(cfg, env):
     for i, (kind, is_call) in enumerate(cfg['elems']):
         o = {'jsonrpc': '2.0', 'method': kind, 'params': [i]}
         if is_call:
-            o['id'] = 'id%d' % i
+            o['id'] = id_of(i)
         doc.append(o)
     loop = VLoop()
 
